@@ -424,6 +424,15 @@ INSERT INTO z SELECT i, i%%13, CASE i%%3 WHEN 0 THEN 'k'||(i%%5) WHEN 1 THEN 'K'
 			st = append(st, `CREATE INDEX flags_v ON flags (v)`)
 			return st
 		}()},
+		{"far-apart-rowids", []string{
+			`CREATE TABLE ends (id INTEGER PRIMARY KEY, v)`,
+			`INSERT INTO ends VALUES (-9223372036854775808, 'min'), (9223372036854775807, 'max')`,
+			`CREATE TABLE minzero (id INTEGER PRIMARY KEY, v)`,
+			`INSERT INTO minzero VALUES (-9223372036854775808, 'min'), (0, 'zero'), (1, 'one')`,
+			`CREATE TABLE negmax (v)`,
+			`INSERT INTO negmax (rowid, v) VALUES (-5, 'm5'), (-1, 'm1'), (9223372036854775807, 'max')`,
+			`CREATE INDEX negmax_v ON negmax (v)`,
+		}},
 		{"empty-objects", []string{
 			`CREATE TABLE e (a, b)`,
 			`CREATE INDEX e_b ON e (b)`,
